@@ -162,7 +162,17 @@ func genSeqCache(prop string, seed uint64, tier string, kinds []string) *SeqScen
 			}
 		}
 		ns := 1 + g.r.Intn(8)
-		for i := 0; i < ns; i++ {
+		swapAt := -1
+		if g.r.Bool(0.4) {
+			swapAt = g.r.Intn(ns + 1) // the callback is (re)installed or removed after construction
+		}
+		for i := 0; i <= ns; i++ {
+			if i == swapAt {
+				sc.Ops = append(sc.Ops, Op{K: CSetCallback, N: g.r.Intn(2)})
+			}
+			if i == ns {
+				break
+			}
 			d := []int64{1, 3, 50, 1000, int64(time.Second), 0, sentinelDefault, int64(time.Hour)}[g.r.Intn(8)]
 			sc.Ops = append(sc.Ops, Op{K: CSet, Key: i, Val: g.val(), D: d})
 			noteStore(i, d)
